@@ -1,6 +1,6 @@
 (** Model/Cache.v — pypyr/cache/cache.py [Cache.get] / [Cache.clear] as a transition
     system over an arbitrary scheduler, and the pipeline-cache key of
-    [pypyr.cache.loadercache.Loader.get_pipeline].
+    [pypyr.cache.loadercache.Loader.get_pipeline] (a pair since commit 0c7650b).
 
     The instruction list is written by hand from the source; it is tied to /repo only by
     the correspondence run (harness/props/C13.py), which replays model schedules step for
@@ -32,38 +32,42 @@ From PV Require Export PyStr.
 From Coq Require Import Lia.
 Open Scope string_scope.
 
-Definition key := string.
 Definition tid := nat.
 Definition obj := Z.
 
-(** * The pipeline cache key:  f'{parent}+{name}' if parent else name *)
+(** * The pipeline cache key:  (f'{parent}' if parent else None, name)
 
-(** [parent] is [None] or [Some (str parent)]; Python truthiness of a str parent is
-    non-emptiness (a [Path] parent is always truthy and never renders as ""). *)
+    (since /repo commit 0c7650b; before that it was the string f'{parent}+{name}', on which
+    ('/x','a+b') and ('/x+a','b') collided) *)
+
+(** a request: (parent, name); [parent] is [None] or [Some (str parent)].  Python
+    truthiness of a str parent is non-emptiness (a [Path] parent is always truthy and never
+    renders as "").  Every other cache (steps, parsers, loaders, back-offs, namespaces,
+    files) uses the name itself as key: that is a request with parent [None]. *)
+Definition req := (option string * string)%type.
+
 Definition truthy (p : option string) : bool :=
   match p with Some (String _ _) => true | _ => false end.
 
-Definition pipeline_key (parent : option string) (name : string) : key :=
-  match parent with
-  | Some (String c r) => String c r ++ "+" ++ name
-  | _ => name
-  end.
+(** a key is the pair the code builds *)
+Definition key := (option string * string)%type.
 
-(** a request: (parent, name).  Every other cache (steps, parsers, loaders, back-offs,
-    namespaces, files) uses the name itself as key = a request with parent [None]. *)
-Definition req := (option string * string)%type.
+Definition pipeline_key (parent : option string) (name : string) : key :=
+  (if truthy parent then parent else None, name).
+
 Definition key_of (r : req) : key := pipeline_key (fst r) (snd r).
 
-(** [None] and [""] are the same "no parent" to every consumer ([if parent:]). *)
+(** [None] and [""] are the same "no parent" to every consumer ([if parent:]); requests
+    are compared modulo this normalisation. *)
 Definition norm_req (r : req) : req := (if truthy (fst r) then fst r else None, snd r).
 
-Definition plus : ascii := "+"%char.
-Definition name_plus_free (r : req) : bool := negb (contains_char plus (snd r)).
-Definition parent_plus_free (r : req) : bool :=
-  match fst r with
-  | Some (String c s) => negb (contains_char plus (String c s))
-  | _ => false
-  end.
+Definition req_eqb (a b : req) : bool :=
+  andb (match fst a, fst b with
+        | None, None => true
+        | Some x, Some y => String.eqb x y
+        | _, _ => false
+        end) (String.eqb (snd a) (snd b)).
+Definition key_eqb : key -> key -> bool := req_eqb.
 
 (** * Programs, threads, shared state *)
 
@@ -103,7 +107,7 @@ Record state := mkSt {
 Definition upd (f : tid -> thread) (t : tid) (th : thread) : tid -> thread :=
   fun t' => if Nat.eqb t' t then th else f t'.
 Definition supd (s : key -> option obj) (k : key) (o : obj) : key -> option obj :=
-  fun k' => if String.eqb k' k then Some o else s k'.
+  fun k' => if key_eqb k' k then Some o else s k'.
 Definition sempty : key -> option obj := fun _ => None.
 
 Definition goto (st : state) (t : tid) (th : thread) (p : pc) : tid -> thread :=
@@ -231,7 +235,7 @@ Fixpoint created_for (k : key) (l : list event) : list obj :=
   match l with
   | [] => []
   | ECreated _ r o :: rest =>
-      if String.eqb (key_of r) k then o :: created_for k rest else created_for k rest
+      if key_eqb (key_of r) k then o :: created_for k rest else created_for k rest
   | _ :: rest => created_for k rest
   end.
 
@@ -240,7 +244,7 @@ Fixpoint got_for (k : key) (l : list event) : list obj :=
   match l with
   | [] => []
   | ELoad _ r o :: rest | EStore _ r o :: rest =>
-      if String.eqb (key_of r) k then o :: got_for k rest else got_for k rest
+      if key_eqb (key_of r) k then o :: got_for k rest else got_for k rest
   | _ :: rest => got_for k rest
   end.
 
@@ -250,13 +254,6 @@ Fixpoint all_created (l : list event) : list obj :=
   | ECreated _ _ o :: rest => o :: all_created rest
   | _ :: rest => all_created rest
   end.
-
-Definition req_eqb (a b : req) : bool :=
-  andb (match fst a, fst b with
-        | None, None => true
-        | Some x, Some y => String.eqb x y
-        | _, _ => false
-        end) (String.eqb (snd a) (snd b)).
 
 Fixpoint calls_by (t : tid) (l : list event) : nat :=
   match l with
@@ -293,7 +290,7 @@ Definition creating (th : thread) (k : key) : bool :=
   match prog th with
   | OGet r _ :: _ =>
       match tpc th with
-      | PCreateEnter | PCreateExit => String.eqb (key_of r) k
+      | PCreateEnter | PCreateExit => key_eqb (key_of r) k
       | _ => false
       end
   | _ => false
